@@ -309,3 +309,53 @@ func (s *Server) Get(ns, ueId string, rg int32) bson.M {
 	}
 	return nil
 }
+
+// SetField sets one field of the first document matching ueId/ratingGroup.
+func (s *Server) SetField(ns, ueId string, rg int32, key string, val interface{}) bool {
+	s.mu.Lock()
+	defer s.mu.Unlock()
+	for _, d := range s.colls[ns] {
+		if d["ueId"] == ueId && eq(d["ratingGroup"], rg, false) {
+			d[key] = val
+			return true
+		}
+	}
+	return false
+}
+
+// Dump returns a copy of every document of a collection.
+func (s *Server) Dump(ns string) []bson.M {
+	s.mu.Lock()
+	defer s.mu.Unlock()
+	var out []bson.M
+	for _, d := range s.colls[ns] {
+		c := bson.M{}
+		for k, v := range d {
+			c[k] = v
+		}
+		out = append(out, c)
+	}
+	return out
+}
+
+// WriteOps is the number of insert/update commands served so far.
+func (s *Server) WriteOps() int {
+	s.mu.Lock()
+	defer s.mu.Unlock()
+	return s.Ops["insert"] + s.Ops["update"] + s.Ops["delete"] + s.Ops["findAndModify"]
+}
+
+// AllOps is the number of commands of any kind served so far (handshakes excluded).
+func (s *Server) AllOps() int {
+	s.mu.Lock()
+	defer s.mu.Unlock()
+	n := 0
+	for k, v := range s.Ops {
+		switch k {
+		case "isMaster", "ismaster", "hello", "ping", "endSessions":
+		default:
+			n += v
+		}
+	}
+	return n
+}
